@@ -48,7 +48,7 @@ def main() -> int:
             cases = cases[: args.limit]
     boundscheck = getattr(mod, "BOUNDSCHECK", False)
     timeout = getattr(mod, "TIMEOUT", {}).get(args.tier, 1500.0)
-    results = run_cases(prop, cases, timeout=timeout, boundscheck=boundscheck, min_cases_per_batch=getattr(mod, "MIN_CASES_PER_PROCESS", 1))
+    results = run_cases(prop, cases, timeout=timeout, boundscheck=boundscheck, min_cases_per_batch=getattr(mod, "MIN_CASES_PER_PROCESS", 3))  # several cases per process by default: state that survives from one run to the next in a process is part of what is monitored
     extra = []
     if hasattr(mod, "post") and not args.replay:
         extra = mod.post(cases, results, args.tier) or []
